@@ -163,6 +163,10 @@ def mutants(design, rng, per_class=3):
             frm, sg = rng.choice(donors)
             inst["conns"][ci][1] = set_at(c, list(path), {"k": "orphan", "w": w, "owner": "module", "from": frm, "sig": sg})
             return
+        if rng.random() < 0.35:
+            # connected to the module's own signal, which is then replaced by another signal of the same name and kind
+            inst["conns"][ci][1] = set_at(c, list(path), {"k": "orphan", "w": w, "owner": "replaced", "n": sub["n"]})
+            return
         inst["conns"][ci][1] = set_at(c, list(path), {"k": "orphan", "w": w, "owner": rng.choice(["none", "other"])})
     for s in pick(lambda s: s[4] == "sig"):
         mutate("orphan", s, orphan)
